@@ -179,6 +179,8 @@ pub enum Mutn {
     Retag,
     /// microsecond := something that is not a 2-tuple of integers
     BadMicro(u8),
+    /// microsecond := {value, precision} with integers the wrapper's fields may not be able to hold
+    SetMicro(i128, i128),
 }
 
 #[derive(Clone, Debug, Serialize, Deserialize)]
@@ -239,6 +241,14 @@ fn mutate_term(t: &OwnedTerm, fields: &[&str], m: &Mutn) -> (OwnedTerm, Option<S
         Mutn::Retag => {
             map.insert(atom("__struct__"), atom("Elixir.Something.Else"));
             (OwnedTerm::Map(map), Some("__struct__".into()))
+        }
+        Mutn::SetMicro(v, pr) => {
+            if map.contains_key(&atom("microsecond")) {
+                map.insert(atom("microsecond"), OwnedTerm::Tuple(vec![big_or_int(*v), big_or_int(*pr)]));
+                (OwnedTerm::Map(map), Some("microsecond".into()))
+            } else {
+                (t.clone(), None)
+            }
         }
         Mutn::BadMicro(k) => {
             let v = match k % 4 {
@@ -383,7 +393,7 @@ pub fn dt_oracle(c: &DtCase) -> Verdict {
     Verdict::Pass(
         info.class(["date", "time", "naive-datetime", "datetime"][(c.kind % 4) as usize])
             .class_if(mutated, "wrong-shape")
-            .class_if(matches!(c.mutn, Mutn::SetInt(..)), "field-out-of-range")
+            .class_if(matches!(c.mutn, Mutn::SetInt(..) | Mutn::SetMicro(..)), "field-out-of-range")
             .class_if(wide, "field-beyond-16-bits"),
     )
 }
@@ -403,6 +413,11 @@ fn dt_strategy() -> impl Strategy<Value = DtCase> {
         1 => any::<u8>().prop_map(Mutn::Remove),
         1 => Just(Mutn::Retag),
         1 => any::<u8>().prop_map(Mutn::BadMicro),
+        2 => (
+            prop_oneof![prop::sample::select(vec![0i128, 999_999, 1 << 32, (1 << 32) + 7, -1, 1 << 63, 1 << 64, u32::MAX as i128]), any::<i64>().prop_map(|v| v as i128)],
+            prop_oneof![prop::sample::select(vec![0i128, 6, 255, 256, 300, -1, 1 << 32]), (0i128..10)]
+        )
+            .prop_map(|(v, p)| Mutn::SetMicro(v, p)),
     ];
     let tz = prop_oneof![Just("Etc/UTC".to_string()), Just("Europe/Berlin".to_string()), "[A-Za-z/_]{0,12}".prop_map(|s| s), Just("Zürich/é".to_string())];
     (
